@@ -29,7 +29,37 @@ struct Cfg
   int maxSize;    // element cap (MultiMap needs one; Map is capped by K)
   bool selfOps;   // C04 alphabet: self assignment, own-element arguments, insert(self)
   bool hasCopy;   // container provides copy construction / assignment (probed at build time)
+  int fib;        // > 0: every history starts from the minimal (Fibonacci-shaped) AVL tree of this height,
+                  // built by level-order insertion; the alphabet is then remove(key)/insert(key) only
+  bool mirror;    // Fibonacci tree leaning right instead of left
 };
+
+// keys of the minimal AVL tree of height h in level order (keys are in-order ranks)
+struct FibNode { int h, lo, size, key; };
+static int fibSize(int h) { return h <= 0 ? 0 : h == 1 ? 1 : 1 + fibSize(h - 1) + fibSize(h - 2); }
+static std::vector<int> fibLevelOrder(int h, bool mirror)
+{
+  std::vector<int> out;
+  std::vector<std::pair<int, int> > level; // (height, first in-order rank)
+  level.push_back(std::make_pair(h, 0));
+  while(!level.empty())
+  {
+    std::vector<std::pair<int, int> > next;
+    for(size_t i = 0; i < level.size(); ++i)
+    {
+      int hh = level[i].first, lo = level[i].second;
+      if(hh <= 0) continue;
+      int lh = mirror ? hh - 2 : hh - 1, rh = mirror ? hh - 1 : hh - 2;
+      if(hh == 1) { lh = rh = 0; }
+      int ls = fibSize(lh);
+      out.push_back(lo + ls);
+      next.push_back(std::make_pair(lh, lo));
+      next.push_back(std::make_pair(rh, lo + ls + 1));
+    }
+    level.swap(next);
+  }
+  return out;
+}
 
 struct Ent { int key, tag; const void* kaddr; const void* vaddr; };
 
@@ -61,6 +91,18 @@ struct H
     vf::ledger().live_blocks = 0; vf::ledger().live_bytes = 0;
     LIB(a = new C());
     faults();
+    if(cfg.fib > 0)
+    {
+      std::vector<int> keys = fibLevelOrder(cfg.fib, cfg.mirror);
+      for(size_t i = 0; i < keys.size(); ++i)
+      {
+        int tag = nextTag++;
+        C::Iterator it;
+        { Tracked k(keys[i]), v(tag); LIB(it = a->insert(k, v)); }
+        checkInserted("insert", it, keys[i], tag, false);
+      }
+      verify("initial Fibonacci tree");
+    }
   }
   ~H() {}
 
@@ -70,6 +112,13 @@ struct H
     ops.clear();
     int n = (int)ref.size();
     bool room = n < cfg.maxSize;
+    if(cfg.fib > 0)
+    { // sparse-tree configuration: removals (and re-insertions) only
+      for(int k = 0; k < cfg.K; ++k) if(has(k)) add(REMK, k);
+      for(int k = 0; k < cfg.K; ++k) if(!has(k)) add(INS, k);
+      opsValid = true;
+      return;
+    }
     for(int k = 0; k < cfg.K; ++k)
       if(room || (!MULTI && has(k))) add(INS, k);
     for(int p = 0; p <= n; ++p)
@@ -469,11 +518,15 @@ int main(int argc, char** argv)
   c.K = (int)vf::argll(argc, argv, "--keys", 5);
   c.maxSize = (int)vf::argll(argc, argv, "--maxsize", MULTI ? 5 : c.K);
   c.selfOps = vf::flag(argc, argv, "--selfops");
+  c.fib = (int)vf::argll(argc, argv, "--fib", 0);
+  c.mirror = vf::flag(argc, argv, "--mirror");
+  if(c.fib > 0) { c.K = fibSize(c.fib); c.maxSize = c.K; }
 #ifdef VF_NOASSIGN
   c.hasCopy = false;
 #else
   c.hasCopy = true;
 #endif
   std::string label = vf::fmt(CNAME " K=%d max=%d%s%s", c.K, c.maxSize, c.selfOps ? " selfops" : "", c.hasCopy ? "" : " noassign");
+  if(c.fib > 0) label = vf::fmt(CNAME " from minimal AVL tree of height %d (%d keys)%s, removals/re-insertions", c.fib, c.K, c.mirror ? " mirrored" : "");
   return vf::bfs_main<H, Cfg>(argc, argv, c, label, 64);
 }
